@@ -149,9 +149,11 @@ class Machine:
             return ("raise", r)
 
     def site(self) -> str:
+        """Where something happened, for finding keys: class and method only - never statement
+        text or a position, so that a reformatted / renamed / restructured statement keeps its key."""
         m = self.stack[-1] if self.stack else "?"
         txt = norm(self.cur).splitlines()[0][:72] if self.cur is not None else ""
-        return f"{self.cls}.{m}: {txt}"
+        return DK(f"{self.cls}.{m}", f"{self.cls}.{m}: {txt}")
 
     def arm(self) -> str:
         """Test of the innermost if/elif arm containing the current statement."""
@@ -253,7 +255,7 @@ class Machine:
             if not r.site:
                 if isinstance(s, (ast.If, ast.While)):
                     self.cur = s
-                r.site = self.site() if not isinstance(s, (ast.If, ast.While)) else f"{self.cls}.{self.stack[-1] if self.stack else '?'}: if {norm(s.test)[:60]}"
+                r.site = self.site() if not isinstance(s, (ast.If, ast.While)) else DK(str(self.site()), f"{self.cls}.{self.stack[-1] if self.stack else '?'}: if {norm(s.test)[:60]}")
             raise
 
     def _stmt(self, s: ast.stmt, env: Dict[str, Any]) -> None:
@@ -359,7 +361,7 @@ class Machine:
         elif isinstance(target, ast.Attribute) and isinstance(target.value, ast.Name) and target.value.id == "self":
             if target.attr == "closed" and value is True and self.store.get("closed") is not True and "#" in self.store:
                 if self.store["#"].get("closed_by") is None:
-                    self.store["#"]["closed_by"] = f"{self.cls}.{self.stack[-1] if self.stack else '?'} arm [{self.arm()}]"
+                    self.store["#"]["closed_by"] = DK(f"{self.cls}.{self.stack[0] if self.stack else '?'} handling {self.cur_label} in state {self.cur_pre_state}", f"{self.cls}.{self.stack[-1] if self.stack else '?'} arm [{self.arm()}]")
             self.store[target.attr] = value
         elif isinstance(target, (ast.Tuple, ast.List)):
             if isinstance(value, Opaque):
@@ -776,6 +778,35 @@ def summary(store: Dict[str, Any]) -> str:
     return f"state={st} closed={store.get('closed')} spawned={g['n_spawn']} head={g['n_head']} ended={g['n_end']} proto_gone={g['proto_dropped']} app_done={g['app_done']}"
 
 
+KEY_LOG: Optional[List[Tuple[str, str, str, str]]] = [] if __import__("os").environ.get("HCVERIF_TS_KEYLOG") else None
+
+
+class DK(str):
+    """Transitional dual key: the string is the current (semantic) key fragment, `.old` the
+    former statement-text fragment; used once to re-key known_findings.json exactly."""
+
+    old: str = ""
+
+    def __new__(cls, new: str, old: str):  # type: ignore[no-untyped-def]
+        o = super().__new__(cls, new)
+        o.old = old
+        return o
+
+    def __deepcopy__(self, memo):  # type: ignore[no-untyped-def]
+        return self
+
+    def __copy__(self):  # type: ignore[no-untyped-def]
+        return self
+
+
+def _old(x: Any) -> str:
+    return x.old if isinstance(x, DK) else str(x)
+
+
+def KX(mtype: str, pre_state: str) -> DK:
+    return DK(f" ({mtype} in {pre_state})", "")
+
+
 @dataclass
 class TSViolation:
     rule: str
@@ -825,7 +856,14 @@ class Explorer:
             raise AnalysisError(f"typestate: {self.cls}.__init__ does not initialise state/closed (role binding lost)")
         return store
 
-    def report(self, rule: str, construct: str, what: str, word: List[str], line: int = 0) -> None:
+    def report(self, rule: str, construct: Any, what: str, word: List[str], line: int = 0) -> None:
+        if isinstance(construct, (list, tuple)):
+            parts = construct
+            construct = "".join(str(p_) for p_ in parts)
+            if KEY_LOG is not None:
+                KEY_LOG.append((self.cls, rule, "".join(_old(p_) for p_ in parts), construct))
+        elif KEY_LOG is not None:
+            KEY_LOG.append((self.cls, rule, construct, construct))
         k = (rule, construct)
         if k not in self.violations:
             self.violations[k] = TSViolation(rule, self.cls, construct, what, list(word), line)
@@ -849,6 +887,8 @@ class Explorer:
                     st2 = copy_store(store)
                     ch = Chooser(prefix)
                     self.m.cur_input = meta
+                    self.m.cur_label = label.split("(")[0]
+                    self.m.cur_pre_state = _canon(store.get("state"))
                     pre = copy_store(store)
                     if meta.get("kind") == "proto" and label.startswith("StreamClosed"):
                         st2["#"]["proto_dropped"] = True
@@ -896,13 +936,13 @@ class Explorer:
         # ---- exceptions
         if outcome == "raise":
             if kind == "proto" or label == "None":
-                self.report("escape", f"{r.exc} at {r.site}", f"{self.cls}: {r.exc} escapes {'handle(' + mtype + ')' if kind == 'proto' else 'app_send(None)'} in state {pre_state} ({r.detail or 'line ' + str(r.where)}): an internal error on the connection's task", word, r.where)
+                self.report("escape", [f"{r.exc} at ", r.site], f"{self.cls}: {r.exc} escapes {'handle(' + mtype + ')' if kind == 'proto' else 'app_send(None)'} in state {pre_state} ({r.detail or 'line ' + str(r.where)}): an internal error on the connection's task", word, r.where)
             else:
                 if emits or puts:
-                    self.report("C12.R2", f"{mtype} in {pre_state}: emits {'/'.join(emits or puts)} then raises {r.exc} at {r.site}", f"{self.cls}.app_send refuses {label} with {r.exc} ({r.detail or 'raise'}) after it has already emitted {emits or puts}: a rejected message has put events on the wire", word, r.where)
+                    self.report("C12.R2", [f"{mtype} in {pre_state}: emits {'/'.join(emits or puts)} then raises {r.exc} at ", r.site], f"{self.cls}.app_send refuses {label} with {r.exc} ({r.detail or 'raise'}) after it has already emitted {emits or puts}: a rejected message has put events on the wire", word, r.where)
                 changed = [k for k in TRACKED if k not in ("response", "scope") and _canon(pre.get(k, 'absent')) != _canon(post.get(k, 'absent'))]
                 if changed:
-                    self.report("C12.R2", f"{mtype} in {pre_state}: changes {'/'.join(changed)} then raises {r.exc} at {r.site}", f"{self.cls}.app_send raises {r.exc} for {label} ({r.detail or 'raise'}) but has already changed {changed}: later messages and the application's exit take the wrong arm", word, r.where)
+                    self.report("C12.R2", [f"{mtype} in {pre_state}: changes {'/'.join(changed)} then raises {r.exc} at ", r.site], f"{self.cls}.app_send raises {r.exc} for {label} ({r.detail or 'raise'}) but has already changed {changed}: later messages and the application's exit take the wrong arm", word, r.where)
         # ---- the last body message ends the response
         if self.cls == "HTTPStream" and kind == "app" and mtype == "http.response.body" and "more_body=False" in label and pre_state == "RESPONSE" and outcome == "ok" and pre.get("closed") is not True:
             resp = pre.get("response")
@@ -910,6 +950,18 @@ class Explorer:
             if not wants_trailers and "EndBody" not in emits:
                 status = resp.get("status") if isinstance(resp, dict) else "?"
                 self.report("C02.R1", f"last body message does not end the response (status {status}, method {self.params.get('method')})", f"{self.cls}: http.response.body with more_body=False (status {status}, {self.params.get('method')} request) emitted {emits}: the response is never ended (no EndBody / StreamClosed)", word, line)
+        # ---- every accepted body message puts its data on the wire (unless the status / method suppresses bodies)
+        body_msg = (self.cls == "HTTPStream" and mtype == "http.response.body" and "body=data" in label and pre_state == "RESPONSE") or (self.cls == "WSStream" and mtype == "websocket.http.response.body" and pre_state in ("HANDSHAKE", "RESPONSE"))
+        if body_msg and kind == "app" and outcome == "ok" and pre.get("closed") is not True:
+            resp = pre.get("response")
+            status = resp.get("status") if isinstance(resp, dict) else None
+            method = self.params.get("method", "GET") if self.cls == "HTTPStream" else "GET"
+            if isinstance(status, int):
+                suppressed = method == "HEAD" or 100 <= status < 200 or status in (204, 304)
+                if not suppressed and "Body" not in emits:
+                    self.report("C02.R11", f"{mtype} in {pre_state} (status {status}) emits no Body", f"{self.cls}: {label} accepted in state {pre_state} for a {status} response emitted {emits}: the chunk never reaches the client (truncated body)", word, line)
+                if suppressed and "Body" in emits:
+                    self.report("C02.R11", f"{mtype} in {pre_state} (status {status}, {method}) emits a Body", f"{self.cls}: {label} for a response that must not carry a body ({method}, status {status}) emitted {emits}", word, line)
         # ---- anything after completion raises (HTTP; for WebSocket post-close sends are silent by C03)
         if self.cls == "HTTPStream" and kind == "app" and label != "None" and pre_state == "CLOSED" and outcome == "ok":
             self.report("C12.R1t", f"{mtype} accepted after the response was completed (state CLOSED)", f"{self.cls}.app_send accepts {label} silently although the response is complete: a message after completion must raise into the application", word, line)
@@ -919,23 +971,23 @@ class Explorer:
                 self.report("C03.R4", f"{mtype} after close is not a no-op", f"{self.cls}.app_send after closure must be a silent no-op, but it {'raises ' + r.exc if outcome == 'raise' else 'emits ' + str(emits)}", word, line)
         # ---- counters
         if g["n_disc"] >= 2 and g0["n_disc"] < 2:
-            self.report("C03.R1", f"second disconnect at {last_site('put')}", f"{self.cls}: the application is sent a second disconnect message", word, line)
+            self.report("C03.R1", ["second disconnect at ", last_site('put'), KX(mtype, pre_state)], f"{self.cls}: the application is sent a second disconnect message", word, line)
         if g["put_after_disc"] and not g0["put_after_disc"]:
-            self.report("C03.R2", f"delivery after disconnect at {last_site('put')}", f"{self.cls}: {puts} delivered to the application after its disconnect message", word, line)
+            self.report("C03.R2", ["delivery after disconnect at ", last_site('put'), KX(mtype, pre_state)], f"{self.cls}: {puts} delivered to the application after its disconnect message", word, line)
         if g["n_access"] >= 2 and g0["n_access"] < 2:
-            self.report("C03.R3", f"second access record at {last_site('access')} (stream closed={pre.get('closed')}, by {g0.get('closed_by')})", f"{self.cls}: a second access-log record is written for the same request", word, line)
+            self.report("C03.R3", ["second access record at ", last_site('access'), DK(f" ({mtype} in {pre_state}, stream closed={pre.get('closed')})", f" (stream closed={pre.get('closed')}, by {_old(g0.get('closed_by')) if g0.get('closed_by') is not None else None})")], f"{self.cls}: a second access-log record is written for the same request", word, line)
         if g["n_spawn"] >= 2 and g0["n_spawn"] < 2:
-            self.report("C01.R1", f"second spawn at {last_site('spawn')}", f"{self.cls}: a second application instance is started for the same request", word, line)
+            self.report("C01.R1", ["second spawn at ", last_site('spawn'), KX(mtype, pre_state)], f"{self.cls}: a second application instance is started for the same request", word, line)
         if g["n_head"] >= 2 and g0["n_head"] < 2:
-            self.report("C12.R3", f"second final head at {last_site('emit', lambda t: t[1].cls == 'Response')}", f"{self.cls}: a second final response head is emitted for the same request", word, line)
+            self.report("C12.R3", ["second final head at ", last_site('emit', lambda t: t[1].cls == 'Response'), KX(mtype, pre_state)], f"{self.cls}: a second final response head is emitted for the same request", word, line)
         if g["n_end"] >= 2 and g0["n_end"] < 2:
-            self.report("C02.R1", f"second EndBody at {last_site('emit', lambda t: t[1].cls == 'EndBody')}", f"{self.cls}: end-of-response is signalled twice", word, line)
+            self.report("C02.R1", ["second EndBody at ", last_site('emit', lambda t: t[1].cls == 'EndBody'), KX(mtype, pre_state)], f"{self.cls}: end-of-response is signalled twice", word, line)
         if g["grammar"] and not g0["grammar"]:
-            self.report("C02.R1", f"{g['grammar']} at {last_site('emit')} ({mtype} in {pre_state})", f"{self.cls}: emission grammar violated: {g['grammar']}", word, line)
+            self.report("C02.R1", [f"{g['grammar']} at ", last_site('emit'), f" ({mtype} in {pre_state})"], f"{self.cls}: emission grammar violated: {g['grammar']}", word, line)
         if g["emit_after_sc"] and not g0["emit_after_sc"]:
-            self.report("C02.R1", f"emission after StreamClosed at {last_site('emit')}", f"{self.cls}: {emits} emitted after the stream told the protocol it was closed", word, line)
+            self.report("C02.R1", ["emission after StreamClosed at ", last_site('emit'), KX(mtype, pre_state)], f"{self.cls}: {emits} emitted after the stream told the protocol it was closed", word, line)
         if g["sc_out"] >= 2 and g0["sc_out"] < 2:
-            self.report("C05.R2", f"second StreamClosed at {last_site('emit')}", f"{self.cls}: StreamClosed is emitted twice", word, line)
+            self.report("C05.R2", ["second StreamClosed at ", last_site('emit'), KX(mtype, pre_state)], f"{self.cls}: StreamClosed is emitted twice", word, line)
         # ---- application exit
         if kind == "app" and label == "None" and pre.get("closed") is not True and outcome == "ok":
             if g0["n_head"] == 0 and g0["n_spawn"] > 0:
@@ -976,9 +1028,9 @@ class Explorer:
         if not g["saw_request"]:
             return
         if g["n_spawn"] >= 1 and g["n_disc"] == 0:
-            self.report("C03.R1", f"never disconnected: stream closed by {g.get('closed_by')}", f"{self.cls}: protocol and application are both finished but the application was never sent a disconnect message (the stream was marked closed by {g.get('closed_by')})", word)
+            self.report("C03.R1", ["never disconnected: stream closed by ", g.get('closed_by') if g.get('closed_by') is not None else "None"], f"{self.cls}: protocol and application are both finished but the application was never sent a disconnect message (the stream was marked closed by {g.get('closed_by')})", word)
         if g["n_access"] == 0:
-            self.report("C03.R3", f"no access record: final state {_canon(store.get('state'))}, stream closed by {g.get('closed_by')}", f"{self.cls}: the request ended without any access-log record", word)
+            self.report("C03.R3", [f"no access record: final state {_canon(store.get('state'))}, stream closed by ", g.get('closed_by') if g.get('closed_by') is not None else "None"], f"{self.cls}: the request ended without any access-log record", word)
 
 
 # ----------------------------------------------------------------------------- input alphabets
@@ -1087,6 +1139,7 @@ _CACHE: Dict[str, Any] = {}
 RULE_MAP = {
     "C01.R1": {"C01": "C01.R1"},
     "C02.R1": {"C02": "C02.R1"},
+    "C02.R11": {"C02": "C02.R11"},
     "C03.R1": {"C03": "C03.R1", "C07": "C07.R2"},
     "C03.R2": {"C03": "C03.R2"},
     "C03.R3": {"C03": "C03.R3"},
@@ -1104,6 +1157,7 @@ RULE_MAP = {
 RULE_TEXT = {
     "C01.R1": "typestate: exactly one application is started for an accepted request, none for a rejected one",
     "C02.R1": "typestate: emission grammar - Info* Response Body* Trailers* EndBody StreamClosed (or an aborted prefix ending in StreamClosed); at most one EndBody; nothing after StreamClosed",
+    "C02.R11": "typestate: every accepted body message (HTTP response body, WebSocket denial-response body) emits its data as a Body event in every state in which it is accepted, unless the method / status suppresses bodies - then it emits none",
     "C03.R1": "typestate: at most one disconnect message; exactly one once protocol and application are both finished",
     "C03.R2": "typestate: nothing is delivered to the application after its disconnect message",
     "C03.R3": "typestate: at most one access-log record per request; exactly one once the request is over",
